@@ -31,7 +31,7 @@ from hypothesis import HealthCheck, Phase, given, seed, settings  # noqa: E402
 
 from adaptix import DebugTrail, ProviderNotFoundError, Retort  # noqa: E402
 from vkit import codec, soup, tspec  # noqa: E402
-from vkit.errors import exc_site, first_foreign, valid_load_error  # noqa: E402
+from vkit.errors import all_nodes, exc_site, first_foreign, valid_load_error  # noqa: E402
 
 DEBUG = [DebugTrail.DISABLE, DebugTrail.FIRST, DebugTrail.ALL]
 STRINGS = [x for x in soup._LEAVES if isinstance(x, str)] + soup.HOSTILE_STRINGS  # noqa: SLF001
@@ -167,6 +167,8 @@ def main():
         except BaseException as ex:  # noqa: BLE001
             if valid_load_error(ex):
                 stats["raised_loaderror"] += 1
+                return
+            if any(isinstance(n, RecursionError) for n in all_nodes(ex)):
                 return
             stats["violations"] += 1
             foreign = first_foreign(ex)
